@@ -107,6 +107,21 @@ func c17Retained(c *engine.Ctx, fn, gn *pure.Fn, inName, in2Name string) {
 		c.Count("purity_panics", 1)
 		return
 	}
+	// the results of f belong to the caller: overwrite them, then g (on fresh storage) must still
+	// return what it returns when run alone
+	if fn.Name != "T.Coords+accessors" { // accessor results are documented views of the argument
+		var solo, got string
+		if p, _ := engine.Guard(func() {
+			solo = gn.Call(pure.BuildByName(in2Name))
+			in3 := pure.BuildByName(inName)
+			fn.Call(in3)
+			in3.ScribbleKept()
+			got = gn.Call(pure.BuildByName(in2Name))
+		}); p == nil && solo != got {
+			c.Violate("retained/"+fn.Name+"/result-overwritten-then/"+gn.Name, fmt.Sprintf("after the caller overwrote the result of %s(%s), %s(%s) returns %s instead of %s", fn.Name, inName, gn.Name, in2Name, clipStr(got, 200), clipStr(solo, 200)), "retained", cs)
+			return
+		}
+	}
 	if before != after {
 		c.Violate("retained/"+fn.Name+"/changed-by/"+gn.Name, fmt.Sprintf("the result of %s(%s), kept by the caller, changed when %s(%s) was called afterwards: %s", fn.Name, inName, gn.Name, in2Name, diffAt(before, after)), "retained", cs)
 		return
@@ -164,6 +179,50 @@ func c17Run(c *engine.Ctx) {
 			if fns[f].Applies(in) {
 				c17PurityOne(c, &fns[f], in)
 			}
+		}
+	}
+	// (A1b) exhaustive low-level family: every coordinate-taking function on every tuple of
+	// pure.BulkTuples (all configurations of two segments on the 3x3 grid: disjoint, crossing,
+	// touching at each end, collinear with every overlap pattern, zero-length, parallel; the
+	// overflow and the nearly-coincident families that reach the fallback paths). Argument
+	// storage is compared per call; the package-level state once per function.
+	tuples := pure.BulkTuples()
+	c.Note("bulk_tuples", len(tuples))
+	for f := range fns {
+		probe := pure.TupleInput("probe", tuples[0])
+		if !fns[f].Applies(probe) || probe.T != nil {
+			continue
+		}
+		if fns[f].Applies(&pure.Input{Name: "none"}) {
+			continue // does not look at the coordinates
+		}
+		glob := pure.Globals()
+		for ti, tp := range tuples {
+			name := fmt.Sprintf("tuple%d", ti)
+			in := pure.TupleInput(name, tp)
+			if !fns[f].Applies(in) {
+				continue
+			}
+			c.Count("evaluations", 1)
+			snap := in.CoordSnapshot()
+			var r1, r2 string
+			if p, _ := engine.Guard(func() { r1 = fns[f].Call(in); r2 = fns[f].Call(in) }); p != nil {
+				c.Count("purity_panics", 1)
+				continue
+			}
+			cs := c17Case{Part: "tuple", Fns: []string{fns[f].Name}, Inputs: []string{name}}
+			if s2 := in.CoordSnapshot(); s2 != snap {
+				c.Violate("purity/"+fns[f].Name+"/argument-modified", fmt.Sprintf("%s on coordinates %v: argument storage changed: %s", fns[f].Name, tp, diffAt(snap, s2)), "tuple", cs)
+				break
+			}
+			if r1 != r2 {
+				c.Violate("purity/"+fns[f].Name+"/not-repeatable", fmt.Sprintf("%s on coordinates %v: second call returned a different result: %s", fns[f].Name, tp, diffAt(r1, r2)), "tuple", cs)
+				break
+			}
+			c.Count("tuple_purity_ok", 1)
+		}
+		if g2 := pure.Globals(); g2 != glob {
+			c.Violate("purity/"+fns[f].Name+"/global-state-changed", "package-level state changed during the tuple family: "+diffAt(glob, g2), "tuple", c17Case{Part: "tuple", Fns: []string{fns[f].Name}, Inputs: []string{"tuple0"}})
 		}
 	}
 	// (A2) two-call histories with the first result retained: every ordered pair (f, g) on the
@@ -292,6 +351,27 @@ func c17Replay(c *engine.Ctx, kind string, raw json.RawMessage) {
 	switch kind {
 	case "purity":
 		c17Purity(c, cs.Fns[0], cs.Inputs[0])
+	case "tuple":
+		var ti int
+		fmt.Sscanf(cs.Inputs[0], "tuple%d", &ti)
+		tuples := pure.BulkTuples()
+		fns := pure.Registry()
+		for i := range fns {
+			if fns[i].Name != cs.Fns[0] || ti >= len(tuples) {
+				continue
+			}
+			in := pure.TupleInput(cs.Inputs[0], tuples[ti])
+			snap := in.CoordSnapshot()
+			var r1, r2 string
+			if p, _ := engine.Guard(func() { r1 = fns[i].Call(in); r2 = fns[i].Call(in) }); p != nil {
+				return
+			}
+			if in.CoordSnapshot() != snap {
+				c.Violate("purity/"+fns[i].Name+"/argument-modified", fmt.Sprintf("%s on coordinates %v: argument storage changed", fns[i].Name, tuples[ti]), "tuple", cs)
+			} else if r1 != r2 {
+				c.Violate("purity/"+fns[i].Name+"/not-repeatable", "second call differs", "tuple", cs)
+			}
+		}
 	case "retained":
 		fns := pure.Registry()
 		var f, g *pure.Fn
